@@ -303,6 +303,117 @@ Proof.
     unfold qos0_clause in *. rewrite Mt. exact X.
 Qed.
 
+(* weaker views of a table evolution: futures stay (with their meta data), absent ones stay absent *)
+Definition mtab (s s' : st) : Prop :=
+  forall c f, fut_get s c = Some f -> exists f', fut_get s' c = Some f' /\ meta f' = meta f.
+Definition ntab (skip : option N) (s s' : st) : Prop :=
+  forall c, is_cr skip c = false -> fut_get s c = None -> fut_get s' c = None.
+
+Lemma evtab_mtab nr nt cr s s' : evtab nr nt cr s s' -> mtab s s'.
+Proof. intros H c f Hf. eapply evtab_fwd; eassumption. Qed.
+Lemma evtab_ntab nr nt cr s s' : evtab nr nt cr s s' -> ntab cr s s'.
+Proof. intros H c Hc Hn. eapply evtab_none; eassumption. Qed.
+
+Lemma complete_mtab x c v : mtab x (fut_complete x c v).
+Proof.
+  intros c' f Hf. rewrite fut_get_complete. destruct (N.eqb_spec c' c) as [->|]; [|exists f; auto].
+  rewrite Hf. cbn [option_map]. eexists. split; reflexivity.
+Qed.
+Lemma complete_ntab x c v : ntab None x (fut_complete x c v).
+Proof.
+  intros c' _ Hn. rewrite fut_get_complete. destruct (N.eqb_spec c' c) as [->|]; [|exact Hn]. rewrite Hn. reflexivity.
+Qed.
+Lemma mtab_trans s x s' : mtab s x -> mtab x s' -> mtab s s'.
+Proof.
+  intros H1 H2 c f Hf. destruct (H1 _ _ Hf) as (f1 & Hf1 & M1). destruct (H2 _ _ Hf1) as (f2 & Hf2 & M2).
+  exists f2. split; [exact Hf2|congruence].
+Qed.
+Lemma ntab_trans_l k s x s' : ntab k s x -> ntab None x s' -> ntab k s s'.
+Proof. intros H1 H2 c Hc Hn. apply H2; [reflexivity|]. apply H1; assumption. Qed.
+Lemma mtab_same s s' : (forall c, fut_get s' c = fut_get s c) -> mtab s s'.
+Proof. intros E c f Hf. exists f. rewrite E. auto. Qed.
+Lemma ntab_same k s s' : (forall c, fut_get s' c = fut_get s c) -> ntab k s s'.
+Proof. intros E c _ Hn. rewrite E. exact Hn. Qed.
+
+Lemma hist_B s s' : mtab s s' ->
+  (forall j c, amap_get (t_store (t s')) j = Some c -> amap_get (t_store (t s)) j = Some c) ->
+  (forall j c, amap_get (t_store (t s)) j = Some c -> exists f, fut_get s c = Some f /\ cf_id f = j /\ cf_kind f <> KConnect) ->
+  (forall j c, amap_get (t_store (t s')) j = Some c -> exists f, fut_get s' c = Some f /\ cf_id f = j /\ cf_kind f <> KConnect).
+Proof.
+  intros M Hst B j c Hj. destruct (B _ _ (Hst _ _ Hj)) as (f & Hf & Hi & Hk).
+  destruct (M _ _ Hf) as (f' & Hf' & Mm). unfold meta in Mm. injection Mm as Mi Mk _ _.
+  exists f'. split; [exact Hf'|]. split; congruence.
+Qed.
+
+Lemma hist_D s s' : mtab s s' ->
+  (t_connfut (t s') = t_connfut (t s) \/ t_connfut (t s') = None) ->
+  match t_connfut (t s) with Some c => exists f, fut_get s c = Some f /\ cf_kind f = KConnect | None => True end ->
+  match t_connfut (t s') with Some c => exists f, fut_get s' c = Some f /\ cf_kind f = KConnect | None => True end.
+Proof.
+  intros M [->| ->] D; [|exact I]. destruct (t_connfut (t s)) as [c|]; [|exact I].
+  destruct D as (f & Hf & Hk). destruct (M _ _ Hf) as (f' & Hf' & Mm).
+  unfold meta in Mm. injection Mm as _ Mk _ _. exists f'. split; [exact Hf'|congruence].
+Qed.
+
+Lemma hist_C nr nt cr s s' : evtab nr nt cr s s' -> nr = length (g_rx (g s)) -> nt = length (g_tx (g s)) ->
+  log_ext (g_rx (g s)) (g_rx (g s')) -> log_ext (g_tx (g s)) (g_tx (g s')) ->
+  (forall c f, fut_get s c = Some f -> good (g_rx (g s)) (g_tx (g s)) f) ->
+  (forall c f, fut_get s' c = Some f -> good (g_rx (g s')) (g_tx (g s')) f).
+Proof.
+  intros EV -> -> Hrx Htx C c f' Hf'. eapply good_ext; [exact Hrx|exact Htx|].
+  eapply (evtab_good _ _ _ _ _ _ _ EV eq_refl eq_refl C); exact Hf'.
+Qed.
+
+(* a completion: every other slot as before, the completed one justified *)
+Lemma hist_C_complete s x c v s' :
+  evtab (length (g_rx (g s))) (length (g_tx (g s))) None s x ->
+  (forall c', fut_get s' c' = fut_get (fut_complete x c v) c') ->
+  g_rx (g s') = g_rx (g s) -> g_tx (g s') = g_tx (g s) ->
+  (forall c f, fut_get s c = Some f -> good (g_rx (g s)) (g_tx (g s)) f) ->
+  (forall f, fut_get s c = Some f -> justified (g_rx (g s)) (g_tx (g s)) f) ->
+  (forall c f, fut_get s' c = Some f -> good (g_rx (g s')) (g_tx (g s')) f).
+Proof.
+  intros EV E Hrx Htx C J c' f' Hf'. rewrite Hrx, Htx. rewrite E, fut_get_complete in Hf'.
+  destruct (N.eqb_spec c' c) as [->|].
+  - destruct (fut_get x c) as [fx|] eqn:Ex; [|discriminate Hf']. cbn [option_map] in Hf'. injection Hf' as <-.
+    pose proof (EV c) as Hev. rewrite Ex in Hev. destruct (fut_get s c) as [f|] eqn:Ef; [|destruct Hev as [X _]; discriminate X].
+    destruct Hev as [M _]. unfold meta in M. injection M as Mi Mk Mr Mt.
+    destruct (C _ _ Ef) as [[Hr Ht] _]. split; [split; cbn [cf_rxmark cf_txmark]; congruence|].
+    intros _. specialize (J _ eq_refl).
+    unfold justified, connack_clause, ack_clause, qos0_clause in *. cbn [cf_kind cf_id cf_rxmark cf_txmark].
+    rewrite Mi, Mk, Mr, Mt. exact J.
+  - eapply (evtab_good _ _ _ _ _ _ _ EV eq_refl eq_refl C); exact Hf'.
+Qed.
+
+Lemma fut_get_new x c id kd : fut_get (fut_new x c id kd) c = Some (CFut future_new id kd (length (g_rx (g x))) (length (g_tx (g x)))).
+Proof. unfold fut_new, fut_get. cbn [t t_futs set_t t_set_futs]. rewrite aget_put, N.eqb_refl. reflexivity. Qed.
+
+(* storing a freshly created future: it is still there, with its id and kind *)
+Lemma fut_get_new_put x c id kd :
+  exists f, fut_get (store_put_f (fut_new x c id kd) id c) c = Some f /\ cf_id f = id /\ cf_kind f = kd.
+Proof.
+  unfold store_put_f.
+  destruct (amap_get (t_store (t (fut_new x c id kd))) id) as [c0|]; [destruct (N.eqb_spec c0 c) as [->|Hne]|].
+  - eexists. split; [apply fut_get_new|split; reflexivity].
+  - assert (G : fut_get (fut_cancel (fut_new x c id kd) c0 VNil) c = fut_get (fut_new x c id kd) c).
+    { unfold fut_cancel, fut_resolve. destruct (fut_get (fut_new x c id kd) c0); [|reflexivity].
+      unfold fut_get at 1. cbn [t t_futs set_t t_set_futs]. rewrite aget_put.
+      destruct (N.eqb_spec c c0) as [->|]; [contradiction|reflexivity]. }
+    exists (CFut future_new id kd (length (g_rx (g x))) (length (g_tx (g x)))). split; [|split; reflexivity].
+    unfold fut_get at 1. cbn [t t_futs set_t t_set_store]. fold (fut_get (fut_cancel (fut_new x c id kd) c0 VNil) c).
+    rewrite G. apply fut_get_new.
+  - eexists. split; [apply fut_get_new|split; reflexivity].
+Qed.
+
+Lemma fin_clause rx tx r id f : good rx tx f -> req_qos0 r = true -> cf_kind f = req_kind r ->
+  cf_kind f = KPub 0 /\ qos0_clause ((req_packet r id, true, Ok) :: tx) f.
+Proof.
+  intros [[_ Ht] _] Hq Hk. destruct r as [m| |]; cbn [req_qos0] in Hq; try discriminate Hq.
+  apply N.eqb_eq in Hq. cbn [req_kind req_packet] in *. rewrite Hq in Hk. split; [exact Hk|].
+  exists m, id. split; [|exact Hq]. cbn [length]. replace (S (length tx) - cf_txmark f)%nat with (S (length tx - cf_txmark f)) by lia.
+  cbn [firstn]. left. reflexivity.
+Qed.
+
 Lemma sub_del {A} (m : list (N * A)) k : NoDup (akeys m) ->
   forall j c, amap_get (amap_del m k) j = Some c -> amap_get m j = Some c.
 Proof. intros Hnd j c H. rewrite aget_del in H by exact Hnd. destruct (j =? k); [discriminate H|exact H]. Qed.
@@ -340,5 +451,42 @@ Proof.
          unfold InvHist; split; [|split; [|split; [|split; [exact B'|split; [exact C'|exact D']]]]] end).
   (* pending calls keep distinct numbers *)
   all: try solve [simp_proj; first [exact A1 | apply anodup_put; exact A1 | apply anodup_del; exact A1 | constructor]].
+  (* pending calls have no future yet *)
+  all: try solve [match goal with EV : evtab _ _ _ _ _ |- forall c cl, amap_get _ c = Some cl -> fut_get _ c = None =>
+         simp_proj; let c0 := fresh "c" in let cl0 := fresh "cl" in let Hp := fresh "Hp" in
+         intros c0 cl0 Hp;
+         first [ discriminate Hp
+               | eapply evtab_none; [exact EV|reflexivity|eapply A2; exact Hp]
+               | rewrite aget_put in Hp;
+                 match type of Hp with (if ?a =? ?b then _ else _) = _ =>
+                   destruct (N.eqb_spec a b) as [->|];
+                   [ eapply evtab_none; [exact EV|reflexivity|assumption]
+                   | eapply evtab_none; [exact EV|reflexivity|eapply A2; exact Hp] ] end
+               | rewrite aget_del in Hp by exact A1;
+                 match type of Hp with (if ?a =? ?b then _ else _) = _ =>
+                   destruct (a =? b); [discriminate Hp|eapply evtab_none; [exact EV|reflexivity|eapply A2; exact Hp]] end ] end].
+  (* the call that holds the mutex *)
+  all: try solve [match goal with EV : evtab _ _ _ _ ?tm |- match k_api _ with _ => _ end =>
+         let TX := fresh "TX" in
+         assert (TX : log_ext (g_tx (g s)) (g_tx (g tm))) by (simp_proj; first [left; reflexivity|right; eexists; reflexivity]);
+         simp_proj;
+         first
+         [ exact I
+         | match goal with E : k_api (k _) = Some (?n, ?pc) |- _ =>
+             try rewrite E in A3; try rewrite E; cbv iota beta in A3; cbv iota beta;
+             destruct A3 as [P F]; split;
+             [ first [ exact P
+                     | rewrite aget_put;
+                       match goal with |- (if ?a =? ?b then _ else _) = _ =>
+                         destruct (N.eqb_spec a b) as [X|X]; [try rewrite X in *; rewrite ?N.eqb_refl in *; discriminate|exact P] end ]
+             | first [ exact I | exact (api_fut_ev s tm n pc EV TX C F)
+                     | cbn [api_fut] in *; eapply evtab_none; [exact EV|reflexivity|exact F] ] ] end
+         | destruct (k_api (k s)) as [[c0 pc0]|] eqn:EA; [|exact I];
+           destruct A3 as [P F]; split;
+           [ first [ exact P
+                   | rewrite aget_put;
+                     match goal with |- (if ?a =? ?b then _ else _) = _ =>
+                       destruct (N.eqb_spec a b) as [X|X]; [try rewrite X in *; rewrite ?N.eqb_refl in *; discriminate|exact P] end ]
+           | exact (api_fut_ev s tm c0 pc0 EV TX C F) ] ] end].
   Show.
 Admitted.
